@@ -2,7 +2,8 @@
 # Real code: src/util/crc32.c, software slicing-by-8 path (the ARM hardware path is behind
 # #if defined(__aarch64__)||defined(__arm__)... and is compiled out on this x86-64 target).
 B = dict(prop='C14', overlays=['contracts/crc32.ovl'], harness='harness/C14/crc32.c', includes=['.'],
-         defines=['CQV_MEMCPY_EXACT=16'], wip=True)
+         defines=['CQV_MEMCPY_EXACT=16'], wip=True,
+         replayer=dict(kind='direct', harness='replay/direct/crc32_selftest.c', sources=[], vars={}))
 STATE = 'crc32.c module state is {flag==0} or {flag==1, tables as left by crc32_init_tables}: both statics are file-local and written only by crc32_init_tables (harness cqv_module_state)'
 SLIDES = ['cqv_lemma_slide%d' % k for k in range(8)]
 
@@ -34,11 +35,38 @@ JOBS += [
          replace=SLIDES + ['cqv_spec_byte'], unwind=257, functions=[], est_s=30, timeout=300,
          **dict(B, defines=B['defines'] + ['CQV_PROVE_BLOCK8=1'])),
     # 3.+4.+5. the real function: both loops in lockstep with the ghost bit-serial register, unbounded length
-    dict(name='c14_crc32_slicing_by_8', entry='h_slicing', loop_contracts=True, unwind=257,
+] + [
+    dict(name='c14_crc32_slicing_by_8_state%d' % st, entry='h_slicing', loop_contracts=True, unwind=257,
          replace=['cqv_spec_block8', 'cqv_spec_byte'], unwindset=['memcpy.0:17'], min_loop_obligations=2,
-         functions=['crc32_slicing_by_8', 'crc32_init_tables'], trusted=[STATE], est_s=120, timeout=400, **B),
+         functions=['crc32_slicing_by_8', 'crc32_init_tables'], trusted=[STATE], est_s=140, timeout=900,
+         note='module state %d (%s)' % (st, 'tables already initialized' if st else 'first call: the function runs crc32_init_tables itself'),
+         **dict(B, defines=B['defines'] + ['CQV_STATE=%d' % st]))
+    for st in (1, 0)
+] + [
     dict(name='c14_crc32', entry='h_crc32', enforce='carquet_crc32', replace=['crc32_slicing_by_8'],
          loop_contracts=False, **B),
     dict(name='c14_crc32_update', entry='h_crc32_update', enforce='carquet_crc32_update', replace=['crc32_slicing_by_8'],
          loop_contracts=False, **B),
 ]
+
+# 6. bounded cross-check without any contract or lemma: real carquet_crc32 / carquet_crc32_update on a
+# buffer of concrete length and alignment offset, all data == explicit bit-serial loop; ghost wiring too
+RP = dict(kind='direct', harness='replay/direct/crc32_vs_zlib.c', sources=[],
+          vars={'len': 'len', 'off': 'off', 'crc0': 'crc0'})
+QUICK_B = {(0, 0), (1, 7), (3, 2), (7, 0), (7, 5)}
+HARD = 'lengths >= 8 contain the 8-byte block identity (2^96), which no back end closes without the lemma chain; not run to completion (>250 s for len 9)'
+for n in list(range(0, 8)) + [8, 9, 16]:
+    for off in (range(0, 8) if n < 8 else [0]):
+        JOBS.append(dict(name='c14_crc32_bounded_len%02d_off%d' % (n, off), entry='h_bounded', loop_contracts=False,
+                         unwind=257, level='bounded', bound='length == %d bytes at offset %d of the buffer (all data, all start values)' % (n, off),
+                         tier='quick' if (n, off) in QUICK_B else 'thorough',
+                         functions=['carquet_crc32', 'carquet_crc32_update', 'crc32_slicing_by_8', 'crc32_init_tables'],
+                         est_s=60, timeout=600, note=(HARD if n >= 8 else ''),
+                         **dict(B, replayer=RP, defines=B['defines'] + ['CQV_LEN=%d' % n, 'CQV_OFF=%d' % off])))
+# 5b. composition law, bounded: total length n, every split point, all data
+for n in (0, 1, 4, 7):
+    JOBS.append(dict(name='c14_crc32_compose_len%02d' % n, entry='h_compose_bounded', loop_contracts=False,
+                     unwind=257, level='bounded', bound='total length == %d bytes, every split point (all data, all start values)' % n,
+                     tier='quick' if n in (4,) else 'thorough', 
+                     functions=['carquet_crc32', 'carquet_crc32_update'],
+                     est_s=120, timeout=600, **dict(B, replayer=dict(RP, vars=dict(RP['vars'], split='split')), defines=B['defines'] + ['CQV_LEN=%d' % n, 'CQV_OFF=3'])))
